@@ -34,11 +34,12 @@ type sched struct {
 	yield  int // 0 none, 1 Gosched, 2 short sleeps
 	seed   int64
 	named  bool
+	lib    bool // with named: the library's own creator ast.CreateVar (a variable's placeholder is the symbol spelled like its name)
 	maxRtn int // 0 = no limit
 }
 
 func (s sched) String() string {
-	return fmt.Sprintf("GOMAXPROCS=%d yield=%d named=%v maxroutines=%d", s.procs, s.yield, s.named, s.maxRtn)
+	return fmt.Sprintf("GOMAXPROCS=%d yield=%d named=%v(ast.CreateVar=%v) maxroutines=%d", s.procs, s.yield, s.named, s.lib, s.maxRtn)
 }
 
 type gctx struct {
@@ -242,7 +243,9 @@ func runOnce(g *G, sc sched, limit int, timeout time.Duration) *run6 {
 	defer runtime.GOMAXPROCS(old)
 	c := &gctx{r: rand.New(rand.NewSource(sc.seed)), sc: sc, vars: map[*ast.SExpr]int{}}
 	var st *gomini.State
-	if sc.named {
+	if sc.named && sc.lib {
+		st = gomini.NewState(ast.CreateVar)
+	} else if sc.named {
 		st = gomini.NewState(namedSExpr)
 	} else {
 		st = gomini.NewState()
@@ -396,7 +399,7 @@ func runC06(cfg *Config) *Report {
 			nsw = 7
 		}
 		for k := 0; k < nsw; k++ {
-			scheds = append(scheds, sched{procs: pick(r, []int{1, 2, 4, 16}), yield: r.Intn(3), seed: r.Int63(), named: r.Intn(2) == 0,
+			scheds = append(scheds, sched{procs: pick(r, []int{1, 2, 4, 16}), yield: r.Intn(3), seed: r.Int63(), named: r.Intn(2) == 0, lib: r.Intn(2) == 0,
 				maxRtn: pick(r, []int{0, 0, 3})})
 		}
 		var first *run6
